@@ -326,74 +326,83 @@ def win : Tree → Nat → Nat
   | .ens a b, wout => 3 + win a (2 + wout) + win b (2 + wout)
   | .sw a b, wout => 2 + wout + win a wout + win b wout
 
-structure Bld where
-  nodes : List NodeDesc := []
-  caps : List (Option Nat) := []
-  ws : List Nat := []
-  deriving Repr
-
-def Bld.chan (b : Bld) (cap : Option Nat) (w : Nat) : Nat × Bld :=
-  (b.caps.length, { b with caps := b.caps ++ [cap], ws := b.ws ++ [w] })
-
-def Bld.node (b : Bld) (d : NodeDesc) : Nat × Bld :=
-  (b.nodes.length, { b with nodes := b.nodes ++ [d] })
-
-def addWorkers (cin cout : Nat) : Nat → Bld → List Instr × Bld
-  | 0, b => ([], b)
-  | k + 1, b =>
-    let (n, b1) := b.node { ins := [cin], plans := [[cout]], souts := [cout], rebro := true, sink := false }
-    let (js, b2) := addWorkers cin cout k b1
-    (.join n :: js, b2)
-
 def pipe (K : Nat) (thread : Bool) : Option Nat := if thread then none else some K
 
-/-- returns the `stop()` script of the subtree -/
-def compileT (K : Nat) : Tree → (cin cout wout : Nat) → Bld → List Instr × Bld
-  | .simple k _, cin, cout, _, b =>
-    let (js, b1) := addWorkers cin cout k b
-    (.put cin :: js, b1)
-  | .seq a b', cin, cout, wout, b =>
-    let (mid, b1) := b.chan (pipe K (a.outThread && b'.inThread)) (win b' wout)
-    let (sa, b2) := compileT K a cin mid (win b' wout) b1
-    let (sb, b3) := compileT K b' mid cout wout b2
-    (sa ++ sb, b3)
-  | .ens a b', cin, cout, wout, b =>
-    let wq := 2 + wout
-    let (ina, b1) := b.chan (pipe K a.inThread) (win a wq)
-    let (outa, b2) := b1.chan (pipe K a.outThread) wq
-    let (sa, b3) := compileT K a ina outa wq b2
-    let (inb, b4) := b3.chan (pipe K b'.inThread) (win b' wq)
-    let (outb, b5) := b4.chan (pipe K b'.outThread) wq
-    let (sb, b6) := compileT K b' inb outb wq b5
-    let (deq, b7) := b6.node { ins := [outa, outb], plans := [[cout], []], souts := [cout], rebro := false, sink := false, all := true }
-    let (enq, b8) := b7.node { ins := [cin], plans := [[cout], [ina, inb]], souts := [ina, inb], rebro := false, sink := false }
-    ([.put cin, .join enq] ++ sa ++ sb ++ [.join deq], b8)
-  | .sw a b', cin, cout, wout, b =>
-    let (ina, b1) := b.chan (pipe K a.inThread) (win a wout)
-    let (sa, b2) := compileT K a ina cout wout b1
-    let (inb, b3) := b2.chan (pipe K b'.inThread) (win b' wout)
-    let (sb, b4) := compileT K b' inb cout wout b3
-    let (enq, b5) := b4.node { ins := [cin], plans := [[cout], [ina], [inb]], souts := [ina, inb], rebro := false, sink := false }
-    ([.put cin, .join enq] ++ sa ++ sb, b5)
+/-- number of internal queues / of threads of a subtree -/
+def Tree.nchan : Tree → Nat
+  | .simple _ _ => 0
+  | .seq a b => 1 + a.nchan + b.nchan
+  | .ens a b => 4 + a.nchan + b.nchan
+  | .sw a b => 2 + a.nchan + b.nchan
+
+def Tree.nnode : Tree → Nat
+  | .simple k _ => k
+  | .seq a b => a.nnode + b.nnode
+  | .ens a b => a.nnode + b.nnode + 2
+  | .sw a b => a.nnode + b.nnode + 1
+
+def workerDesc (cin cout : Nat) : NodeDesc :=
+  { ins := [cin], plans := [[cout]], souts := [cout], rebro := true, sink := false }
+
+/-- internal queues of a subtree (capacity, weight), in index order starting at the subtree's channel base `cb`:
+    seq: `cb` = the queue between the members; ens: `cb..cb+3` = in/out queue of member a, in/out queue of
+    member b; switch: `cb, cb+1` = the members' input queues; then the members' own queues -/
+def chansT (K : Nat) : Tree → (wout : Nat) → List (Option Nat × Nat)
+  | .simple _ _, _ => []
+  | .seq a b, wout =>
+    (pipe K (a.outThread && b.inThread), win b wout) :: (chansT K a (win b wout) ++ chansT K b wout)
+  | .ens a b, wout =>
+    [(pipe K a.inThread, win a (2 + wout)), (pipe K a.outThread, 2 + wout),
+     (pipe K b.inThread, win b (2 + wout)), (pipe K b.outThread, 2 + wout)]
+      ++ (chansT K a (2 + wout) ++ chansT K b (2 + wout))
+  | .sw a b, wout =>
+    [(pipe K a.inThread, win a wout), (pipe K b.inThread, win b wout)] ++ (chansT K a wout ++ chansT K b wout)
+
+/-- threads of a subtree in index order (members first, then the helper threads: `_dequeue`, `_enqueue`) -/
+def nodesT : Tree → (cin cout cb : Nat) → List NodeDesc
+  | .simple k _, cin, cout, _ => List.replicate k (workerDesc cin cout)
+  | .seq a b, cin, cout, cb => nodesT a cin cb (cb + 1) ++ nodesT b cb cout (cb + 1 + a.nchan)
+  | .ens a b, cin, cout, cb =>
+    nodesT a cb (cb + 1) (cb + 4) ++ nodesT b (cb + 2) (cb + 3) (cb + 4 + a.nchan) ++
+      [{ ins := [cb + 1, cb + 3], plans := [[cout], []], souts := [cout], rebro := false, sink := false, all := true },
+       { ins := [cin], plans := [[cout], [cb, cb + 2]], souts := [cb, cb + 2], rebro := false, sink := false }]
+  | .sw a b, cin, cout, cb =>
+    nodesT a cb cout (cb + 2) ++ nodesT b (cb + 1) cout (cb + 2 + a.nchan) ++
+      [{ ins := [cin], plans := [[cout], [cb], [cb + 1]], souts := [cb, cb + 1], rebro := false, sink := false }]
+
+/-- the `stop()` script of a subtree whose first thread has index `nb` -/
+def scriptT : Tree → (cin cb nb : Nat) → List Instr
+  | .simple k _, cin, _, nb => .put cin :: (List.range k).map (fun i => Instr.join (nb + i))
+  | .seq a b, cin, cb, nb => scriptT a cin (cb + 1) nb ++ scriptT b cb (cb + 1 + a.nchan) (nb + a.nnode)
+  | .ens a b, cin, cb, nb =>
+    [.put cin, .join (nb + a.nnode + b.nnode + 1)] ++
+      (scriptT a cb (cb + 4) nb ++ scriptT b (cb + 2) (cb + 4 + a.nchan) (nb + a.nnode)) ++
+      [.join (nb + a.nnode + b.nnode)]
+  | .sw a b, cin, cb, nb =>
+    [.put cin, .join (nb + a.nnode + b.nnode)] ++
+      (scriptT a cb (cb + 2) nb ++ scriptT b (cb + 1) (cb + 2 + a.nchan) (nb + a.nnode))
 
 /-- `_enter_server` + `Server.__exit__` (repaired order: flush and join the onboarding thread first (F12),
-    stop the servlet, join the gather thread, reset the ledger (F18)).  `pinned = true` gives the order of
-    the pinned code (servlet.stop, gather.join, then the onboarding thread; no ledger reset). -/
+    stop the servlet, join the gather thread, reset the ledger (F18)).  `pinned = true` gives the exit order of
+    the pinned code (servlet.stop, gather.join, then the onboarding thread; no ledger reset).
+    Channels: 0 = `_q_in`, 1 = `_q_out`, 2.. = the servlet's internal queues, last = the onboarding buffer (only
+    with a pipe-backed input queue).  Nodes: the servlet's threads, then the gather thread, then the onboarding
+    thread. -/
 def compileServer (K : Nat) (t : Tree) (pinned : Bool := false) : Net :=
-  let b0 : Bld := {}
-  let (qin, b1) := b0.chan (pipe K t.inThread) (win t 1)
-  let (qout, b2) := b1.chan (pipe K t.outThread) 1
-  let (st, b3) := compileT K t qin qout 1 b2
-  let (g, b4) := b3.node { ins := [qout], plans := [[]], souts := [], rebro := false, sink := true }
+  let chs := [(pipe K t.inThread, win t 1), (pipe K t.outThread, 1)] ++ chansT K t 1
+  let nodes := nodesT t 0 1 2 ++ [{ ins := [1], plans := [[]], souts := [], rebro := false, sink := true }]
+  let g := t.nnode
+  let st := scriptT t 0 2 0
   if t.inThread then
-    { nodes := b4.nodes, caps := b4.caps, ws := b4.ws, entry := qin,
+    { nodes := nodes, caps := chs.map (·.1), ws := chs.map (·.2), entry := 0,
       script := st ++ [.join g] ++ (if pinned then [] else [.clear]) }
   else
-    let (buf, b5) := b4.chan none (2 + win t 1)
-    let (o, b6) := b5.node { ins := [buf], plans := [[qin]], souts := [qin], rebro := false, sink := false }
-    { nodes := b6.nodes, caps := b6.caps, ws := b6.ws, entry := buf,
-      script := if pinned then st ++ [.join g, .put buf, .join o]
-                else [.put buf, .join o] ++ st ++ [.join g, .clear] }
+    let buf := 2 + t.nchan
+    let chs' := chs ++ [(none, 2 + win t 1)]
+    { nodes := nodes ++ [{ ins := [buf], plans := [[0]], souts := [0], rebro := false, sink := false }],
+      caps := chs'.map (·.1), ws := chs'.map (·.2), entry := buf,
+      script := if pinned then st ++ [.join g, .put buf, .join (g + 1)]
+                else [.put buf, .join (g + 1)] ++ st ++ [.join g, .clear] }
 
 /-! ## well-formedness of a network (decidable; checked by evaluation for every compiled tree the driver
     sees, proved for … see Proofs/LifecycleWf.lean) -/
